@@ -50,6 +50,8 @@ struct stream {
   int expect_close; /* the stream must end with the session closed */
   int expect_msgs;  /* number of request messages that must reach the handler */
   unsigned csm_max; /* >0: the server is configured with this Max-Message-Size (coap_context_set_csm_max_message_size) */
+  int srv_writes;   /* the server application writes something of its own (a Ping) after every read: what the reader keeps
+                     * between two reads must not be disturbed by the session's writer */
 };
 
 static size_t
@@ -263,7 +265,7 @@ stream_begin(struct stream *s, const char *name, int ws) {
   stream_add(s, csm);
 }
 
-#define NSTREAMS 12
+#define NSTREAMS 14
 static struct stream streams[NSTREAMS];
 static int nstreams;
 
@@ -369,6 +371,20 @@ build_streams(void) {
   stream_add(s, mk(0x01, 1, 0, 0));
   stream_add(s, mk(0x02, 0, 1, 3));
   s->expect_msgs = 2;
+  /* W6/T6: the short streams again, with the server writing a Ping of its own after every read */
+  s = &streams[nstreams++];
+  stream_begin(s, "ws-small-srvwrites", 1);
+  stream_add(s, mk(0x01, 1, 0, 0));
+  stream_add(s, mk(0x02, 0, 1, 3));
+  s->expect_msgs = 2;
+  s->srv_writes = 1;
+  s = &streams[nstreams++];
+  stream_begin(s, "tcp-short-srvwrites", 0);
+  stream_add(s, mk(0x01, 0, 0, 0));
+  stream_add(s, mk(0x02, 8, 0, 9));
+  stream_add(s, mk(0x03, 13, 1, 3));
+  s->expect_msgs = 3;
+  s->srv_writes = 1;
   /* W3/W4: a legal long header line (the longest the 160-byte line buffer holds, and one well inside it) */
   for (int v = 0; v < 2; v++) {
     s = &streams[nstreams++];
@@ -498,6 +514,7 @@ expected_rec(const struct cmsg *m, struct rec *r) {
 }
 
 static ns_stream_t *cur_ns;
+static int cur_srv_writes;
 static coap_session_t *
 server_session(void) {
   coap_endpoint_t *ep = sctx->endpoint;
@@ -534,6 +551,7 @@ seg_begin(const struct stream *st, struct result *res) {
   coap_add_resource(sctx, r);
   cur_ns = ns_stream_raw_connect(&ca, &sa);
   ns_stream_raw_write(cur_ns, 0, st->b, st->n);
+  cur_srv_writes = st->srv_writes;
 }
 static void
 seg_feed(size_t nbytes) {
@@ -541,6 +559,13 @@ seg_feed(size_t nbytes) {
     return;
   ns_stream_release(cur_ns, 1, nbytes);
   ns_prepare_all();
+  if (cur_srv_writes) {
+    coap_session_t *s = server_session();
+    if (s && s->state == COAP_SESSION_STATE_ESTABLISHED && !cur_ns->side[1].closed) {
+      coap_session_send_ping(s);
+      ns_prepare_all();
+    }
+  }
 }
 static void
 seg_end(struct result *res) {
@@ -644,7 +669,8 @@ judge(const struct stream *st, const struct result *res, const struct result *b,
     snprintf(detail, dl, "session closed although the stream is valid");
     return "closed";
   }
-  if (b && (res->resp_len != b->resp_len || res->resp_hash != b->resp_hash)) {
+  if (b && !st->srv_writes /* the number of Pings written depends on the number of reads */ &&
+      (res->resp_len != b->resp_len || res->resp_hash != b->resp_hash)) {
     snprintf(detail, dl, "bytes written back differ from the single-chunk run (%zu vs %zu bytes)", res->resp_len, b->resp_len);
     return "responses-differ";
   }
@@ -814,9 +840,12 @@ reader_state_hash(size_t offset, const struct result *res) {
   for (int i = 0; i < res->nrec && i < 16; i++)
     h = vx_fnv(&res->recs[i], sizeof res->recs[i], h);
   /* bytes written back so far */
-  size_t wl = cur_ns->side[0].rx_len;
-  h = vx_fnv(&wl, sizeof wl, h);
-  h = vx_fnv(cur_ns->side[0].rx, wl, h);
+  if (!cur_srv_writes) { /* (with a Ping written after every read the output counts the reads: it is not reader state, and
+                          *  is not compared for those streams) */
+    size_t wl = cur_ns->side[0].rx_len;
+    h = vx_fnv(&wl, sizeof wl, h);
+    h = vx_fnv(cur_ns->side[0].rx, wl, h);
+  }
   return h;
 }
 
@@ -1025,7 +1054,7 @@ main(int argc, char **argv) {
   vx_ev_int("reader_state_transitions", (long long)vxp_counter(2));
   vx_ev_rule("a real libcoap TCP / WebSocket server session fed a fixed valid byte stream (CSM or HTTP upgrade + 3-5 messages covering TCP length "
              "forms 0-12/13/14, tokens 0/8/ext-1B/ext-2B and their cross combinations, the 32-bit length form in a valid 65.8 KB message between two short ones (cuts at every offset of the three headers, the end of the long message and around the first two buffer-size reads), WS 7/16/64-bit masked frames, a read that fills the 1472-byte buffer, an oversize "
-             "declared length, a declared length above a configured Max-Message-Size of 600, an over-long handshake line, legal handshake lines of 147 and 159 bytes, a short WebSocket stream) under (1) every placement of <= k "
+             "declared length, a declared length above a configured Max-Message-Size of 600, an over-long handshake line, legal handshake lines of 147 and 159 bytes, a short WebSocket stream, a short WebSocket and a short TCP stream during which the server writes a Ping of its own after every read) under (1) every placement of <= k "
              "cuts (k = 2, thorough 3 for streams <= 330 bytes; the long-line streams k = 1 in quick), byte-wise and single-chunk, (2) all "
              "2^(N-1) segmentations via BFS over reader states: in quick for the streams tcp-short, tcp-long, tcp-cross, tcp-oversize, ws-small, "
              "ws-longline; in thorough for all streams (tcp-fullbuf about 80 s, ws-frames about 750 s); a search that meets the deadline or "
